@@ -53,7 +53,7 @@ OrigAlpha ==
   IF Rich THEN {<<>>, <<D(5)>>, <<D(5), D(5)>>, <<D(5), D(7)>>, <<D(7), D(5)>>, <<D(0), D(0)>>}
   ELSE {<<>>, <<D(5)>>, <<D(5), D(7)>>, <<D(5), D(5)>>}
 ForeignAlpha == IF Rich THEN {<<>>, <<B("p.Q")>>, <<B("p.Q$R")>>} ELSE {<<>>, <<B("p.Q$R")>>}
-FileCtx == {<<>>, <<B("F.kt")>>, <<Synthetic>>}
+FileCtx == {<<>>, <<B("F.kt")>>, <<Synthetic>>, <<B("app/src/G.kt")>>}     \* (a recorded file name is reported as recorded)
 
 EntryAst(r, o, f, name, obf) == MethodAst(B("void"), f, name, <<>>, r, o, obf)
 Entries1 == {EntryAst(r, o, f, B("run"), B("m")) : r \in RangeAlpha, o \in OrigAlpha, f \in ForeignAlpha}
